@@ -969,6 +969,8 @@ func (s *Server) scriptDispatch(ss *Session, name string, args [][]byte) resp.Va
 	var v resp.Value
 	h, known := commands[name]
 	switch {
+	case s.refusal(name) != nil:
+		v = *s.refusal(name)
 	case s.Lenient && !isControl(name) && !(len(args) > 0 && IsReservedKey(args[0])):
 		v = resp.OK()
 	case !known:
